@@ -557,12 +557,29 @@ func ruleSoleWriter(w *World, r *Run, rule string) {
 	r.sites += nWrite + nSet + nMap + nExec
 }
 
+// upsertReplacesValue: ON CONFLICT … DO UPDATE sets the value column (second column written) from the new row
+// (excluded.<col>) or from a placeholder.
+func upsertReplacesValue(u sqlStmt) bool {
+	if u.conflictNothing || len(u.cols) < 2 {
+		return false
+	}
+	for _, a := range u.conflictSet {
+		if strings.EqualFold(a[0], u.cols[1]) {
+			rhs := strings.ToLower(a[1])
+			return rhs == "?" || rhs == "excluded."+strings.ToLower(u.cols[1])
+		}
+	}
+	return false
+}
+
 // ---------------------------------------------------------------- SQL tokenizer (constant statements of this repository)
 
 type sqlStmt struct {
 	verb        string
 	orReplace   bool
 	onConflict  bool
+	conflictNothing bool
+	conflictSet [][2]string // ON CONFLICT … DO UPDATE SET column = value
 	ifNotExists bool
 	table       string
 	cols        []string // INSERT column list / SELECT projection / CREATE columns
@@ -689,6 +706,23 @@ func parseSQL(text string) sqlStmt {
 		for ; i < len(t); i++ {
 			if up(i) == "ON" && up(i+1) == "CONFLICT" {
 				st.onConflict = true
+				// ON CONFLICT [(col)] DO UPDATE SET c = excluded.c | ? [, …]: what each column is set to
+				for j := i + 2; j < len(t); j++ {
+					if up(j) == "DO" && up(j+1) == "NOTHING" {
+						st.conflictNothing = true
+					}
+					if up(j) == "SET" {
+						for k := j + 1; k+2 < len(t); k++ {
+							if t[k+1] == "=" {
+								rhs := t[k+2]
+								if k+4 < len(t) && t[k+3] == "." {
+									rhs = t[k+2] + "." + t[k+4]
+								}
+								st.conflictSet = append(st.conflictSet, [2]string{t[k], rhs})
+							}
+						}
+					}
+				}
 			}
 		}
 	case "SELECT":
@@ -864,6 +898,8 @@ func ruleOneStatement(w *World, r *Run, rule string) {
 		r.Fail(rule, key, upsert.pos, "the statement is a plain INSERT: the second update of a log would fail or, without a key, append a row")
 	case len(u.cols) != u.values || len(u.cols) < 2:
 		r.Fail(rule, key, upsert.pos, "column list and placeholders disagree")
+	case u.onConflict && !u.orReplace && !upsertReplacesValue(u):
+		r.Fail(rule, key, upsert.pos, fmt.Sprintf("on a conflict the statement does not replace the stored checkpoint with the new one (DO NOTHING, or SET %v without taking column %s from the new row): the first write for a log sticks and every later Set commits without changing anything", u.conflictSet, u.cols[1]))
 	case create.st.pk == "" || !strings.EqualFold(u.cols[0], create.st.pk):
 		r.Fail(rule, key, upsert.pos, fmt.Sprintf("first column written (%s) is not the table's PRIMARY KEY column (%s): REPLACE would not replace", u.cols[0], create.st.pk))
 	case !strings.EqualFold(u.table, create.st.table) || !strings.EqualFold(sel.st.table, create.st.table) || !strings.EqualFold(list.st.table, create.st.table):
